@@ -10,7 +10,13 @@ CONSTANTS CSizes,     \* client EDNS sizes, NoV (70000) = request without OPT
           Lens,       \* total length of the service's response
           OptLens,    \* length of the OPT record in it (0 = none)
           QLens,      \* length of the question section
-          ROpts       \* EDNS options carried by the request's OPT record
+          ROpts,      \* EDNS options carried by the request's OPT record
+          Recipes,    \* how the service's builder operations end (Server.tla 1c)
+          Routes,     \* how the service makes its builder
+          ALays,      \* non-OPT additional records around the OPT record
+          Tgts,       \* octets type under the stream target: "vec" | "bytes"
+          SvcRoutes,  \* "impl" (Service implemented) | "fn" (util::service_fn)
+          EOns        \* EdnsMiddlewareSvc::enable
 
 VARIABLES cs, done
 vars == <<cs, done>>
@@ -18,17 +24,21 @@ vars == <<cs, done>>
 \* the executor builds: header, question, A record (15), filler records
 \* (11 + n each), OPT: an exact length needs filler = 0 or >= 11
 \* and an OPT record is 11 octets or carries one padding option (4 + n)
-Feasible(q, l, o) == LET f == l - (12 + q + 15 + o)
-                     IN (f = 0 \/ f >= 11) /\ (o \in {0, 11} \/ o >= 15)
+Feasible(q, l, o, al) == LET f == l - (12 + q + 15 + o + AddsOf(al))
+                         IN (f = 0 \/ f >= 11) /\ (o \in {0, 11} \/ o >= 15)
 
 \* The request's options (keepalive -- which a server MUST ignore over UDP,
 \* RFC 7828 3.3.1 --, padding, cookie without server part, NSID, an unknown
 \* code, several at once) are part of the case; no operator of the size
 \* discipline looks at them: `Allowed` depends on the advertised size only.
 Cases == {c \in [udp : BOOLEAN, csize : CSizes, hint : Hints, len : Lens,
-                 optlen : OptLens, qlen : QLens, ropts : ROpts] :
+                 optlen : OptLens, qlen : QLens, ropts : ROpts,
+                 recipe : Recipes, route : Routes, alay : ALays, tgt : Tgts,
+                 svcroute : SvcRoutes, eon : EOns] :
             /\ (c.csize = NoV => c.ropts = "none")
-            /\ Feasible(c.qlen, c.len, c.optlen)
+            /\ Feasible(c.qlen, c.len, c.optlen, c.alay)
+            \* the 65535-octet ceiling recipe needs room for its failing push only
+            /\ (c.svcroute = "fn" => c.tgt = "vec")
             /\ (~c.udp => c.hint = NoV)}        \* no hint on stream transports
 
 Init == cs \in Cases /\ done = FALSE
@@ -36,13 +46,18 @@ Next == ~done /\ done' = TRUE /\ UNCHANGED cs
 Spec == Init /\ [][Next]_vars
 
 Req(c) == [udp |-> c.udp, edns |-> c.csize # NoV, csize |-> c.csize, qlen |-> c.qlen,
-           opts |-> c.ropts]
+           opts |-> c.ropts, eon |-> c.eon]
 Svc(c) == [len |-> c.len, optlen |-> c.optlen,
            body |-> c.len - 12 - c.qlen - c.optlen, tc |-> FALSE]
 
 UdpSize      == UdpSizeOK(Req(cs), cs.hint, Svc(cs))
 TcIffDropped == TcIffDroppedOK(Req(cs), cs.hint, Svc(cs))
 StillParses  == StillParsesOK(Req(cs), cs.hint, Svc(cs))
+\* "correctly framed (two-octet length on streams)": whatever the service's
+\* and the middleware's last builder operation was, the prefix announces
+\* exactly the message
+StreamFramed == FramedOK(cs.recipe, Svc(cs).len)
+                /\ (~cs.udp => FramedOK("plain", Final(Dev, Req(cs), cs.hint, Svc(cs)).len))
 \* negotiation laws (RFC 6891 6.2.3 / 6.2.5)
 NegotiateLaws ==
   cs.csize # NoV =>
@@ -57,12 +72,19 @@ ExpFor(dv, c) ==
   LET f == Final(dv, Req(c), c.hint, Svc(c))
   IN [n |-> 1, len |-> f.len, tc |-> f.tc, trunc |-> f.body = 0,
       opt |-> IF f.optlen > 0 THEN 1 ELSE 0, good |-> TRUE,
-      reserved |-> Reserve(Req(c)), hint |-> HintAfter(Req(c), c.hint)]
+      reserved |-> Reserve(Req(c)), hint |-> HintAfter(Req(c), c.hint),
+      \* streams: the two-octet prefix in front of the message
+      frame |-> IF c.udp THEN -1 ELSE FrameOf(c.recipe, f.len),
+      \* the request converts into a client request (forwarding services)
+      fwd |-> TRUE, nonudp |-> ~c.udp,
+      hints |-> HintsFor("service", 1)]
 
 Emit == done => PrintT("CASE " \o ToJson(
    [in  |-> [kind |-> "size", udp |-> cs.udp, edns |-> cs.csize # NoV,
              csize |-> cs.csize, hint |-> cs.hint, qlen |-> cs.qlen,
-             len |-> cs.len, optlen |-> cs.optlen, ropts |-> cs.ropts],
+             len |-> cs.len, optlen |-> cs.optlen, ropts |-> cs.ropts,
+             recipe |-> cs.recipe, route |-> cs.route, alay |-> cs.alay, tgt |-> cs.tgt,
+             svcroute |-> cs.svcroute, eon |-> cs.eon],
     exp |-> ExpFor({}, cs),
     dev |-> [D_no_edns_uses_server_hint |-> ExpFor({"D_no_edns_uses_server_hint"}, cs),
              D_trunc_opt_over_limit     |-> ExpFor({"D_trunc_opt_over_limit"}, cs)]]))
